@@ -98,8 +98,10 @@ def worker(task):
         else:
             parts = [("plain", o, None)]
         for role, ob, fl in parts:
-            expect_fail = role in ("inside", "whole")
-            solve(ob, timeout, dump_dir=dump, eng=eng, expect_fail=expect_fail)
+            # after three failed obligations in one function the rest get the short budget
+            expect_fail = role in ("inside", "whole") or sum(1 for d0 in obls if d0["result"] == "failed" and d0["role"] in ("plain", "outside")) >= 3
+            many = sum(1 for d0 in obls if d0["result"] == "failed" and d0["role"] in ("plain", "outside")) >= 3
+            solve(ob, 2000 if many else timeout, dump_dir=dump, eng=eng, expect_fail=expect_fail, want_model=not many)
             d = {"id": ob.id, "base_id": ob.base_id, "kind": ob.kind, "result": ob.result, "solver": ob.solver, "time": round(ob.time, 3),
                  "reason": getattr(ob, "reason", ""), "line": ob.line, "note": ob.note, "role": role,
                  "smt2": os.path.relpath(getattr(ob, "smt2", ""), ROOT) if getattr(ob, "smt2", None) else None,
@@ -221,7 +223,7 @@ def check_property(prop, tier, seed, jobs=16):
     if to_replay:
         items = [{"key": r["key"], "contract": r["contract"], "desc": o["model"]} for r, o in to_replay]
         try:
-            p = run_native(["-m", "pyvc.native", "replay-models"], items)
+            p = run_native(["-m", "pyvc.native", "replay-models"], items, timeout=120)
             outs = json.loads(p.stdout) if p.returncode == 0 else [{"verdict": "error", "detail": p.stderr[-500:]}] * len(items)
         except Exception as ex:
             outs = [{"verdict": "error", "detail": str(ex)}] * len(items)
@@ -330,6 +332,10 @@ def check_property(prop, tier, seed, jobs=16):
         os.makedirs(os.path.join(ROOT, "evidence"), exist_ok=True)
         with open(os.path.join(ROOT, "evidence", f"{prop}.json"), "w") as fh:
             json.dump(ev, fh, indent=1, default=str)
+    if os.environ.get("PYVC_VERBOSE"):
+        for r in results:
+            print(f"  .. {r.get('key')} [{r.get('contract')}] status={r.get('status')} obligations={len(r.get('obligations', []))} "
+                  f"failed={sum(1 for o in r.get('obligations', []) if o['result'] == 'failed')} time={r.get('time')}s reason={str(r.get('reason'))[:100]}")
     for ln in lines:
         print(ln)
     print(f"[{prop}] functions={len(funcs)} obligations={n_obl} discharged={n_dis} failed={len(failed)} known={len(kf_out)} "
